@@ -97,6 +97,22 @@ Theorem C12_assoc_first_match : forall p es s,
   (Ok (match List.find (is_pair_with p) es with Some e => e | None => Nil end), s).
 Proof. exact assoc_first_match. Qed.
 
+(* alist-get (no test function): the value of the FIRST pair whose key is equal to *)
+(* the key - also when that value is nil; the default only when no pair matches    *)
+Theorem C12_alist_get_first_match : forall F rec key es dflt s,
+  bind (assoc F rec key (of_list es Nil) None)
+       (fun x => if truthy x then lift (cdr_of x) else ret dflt) s
+  = (Ok (alist_get_spec F key es dflt), s).
+Proof. exact alist_get_first_match. Qed.
+
+(* plist-get: the value after the first key (even position) that is eq to the     *)
+(* property; nil when there is none or the list ends after that key                *)
+Theorem C12_plist_get : forall prop l,
+  even_keys (fun k => eq_model k prop <> None) (List.length l) l ->
+  plist_get (of_list l Nil) prop = Ok (plist_spec prop (List.length l) l).
+Proof. intros prop l H. apply plist_get_spec; [apply Nat.le_refl|exact H]. Qed.
+
+Print Assumptions C12_alist_get_first_match. Print Assumptions C12_plist_get.
 Print Assumptions C12_car_cons. Print Assumptions C12_cdr_cons. Print Assumptions C12_car_cdr_nil.
 Print Assumptions C12_car_cons_eval. Print Assumptions C12_cxr_compose. Print Assumptions C12_cxr_names.
 Print Assumptions C12_nthcdr_skipn. Print Assumptions C12_nthcdr_negative.
@@ -121,6 +137,14 @@ Example C12_ex : ev0 "(list (nth 1 '(a b c)) (nth 5 '(a b c)) (nthcdr 2 '(a b c)
   = Ok (of_list [Sym (s2t "b"); Nil; of_list [Sym (s2t "c")] Nil; of_list [Sym (s2t "c")] Nil;
                  Int 3; Int 2; of_list [Int 1; Int 2] Nil; Cons (Sym (s2t "b")) (Int 2); Int 6] Nil).
 Proof. vm_compute. reflexivity. Qed.
+
+Example C12_alist_plist_ex :
+  alist_get_spec F0 (Sym (s2t "b")) [Cons (Sym (s2t "a")) (Int 1); Int 7; Cons (Sym (s2t "b")) Nil; Cons (Sym (s2t "b")) (Int 2)] (Int 9) = Nil /\
+  alist_get_spec F0 (Sym (s2t "z")) [Cons (Sym (s2t "a")) (Int 1)] (Int 9) = Int 9 /\
+  plist_spec (Sym (s2t "k")) 5 [Sym (s2t "j"); Int 1; Sym (s2t "k"); Int 2; Sym (s2t "k")] = Int 2 /\
+  ev0 "(list (alist-get 'b '((a . 1) 7 (b) (b . 2)) 9) (alist-get 'z '((a . 1)) 9) (plist-get '(j 1 k 2 k) 'k) (plist-get '(j 1 k) 'k))"
+  = Ok (of_list [Nil; Int 9; Int 2; Nil] Nil).
+Proof. vm_compute. repeat split. Qed.
 
 Check C12_nthcdr_skipn : forall n xs, 0 <= n ->
   nthcdr n (of_list xs Nil) = Ok (of_list (skipn (Z.to_nat n) xs) Nil).
